@@ -13,7 +13,7 @@ package tls
 //@   ensures len(ret) <= len(name)
 
 //@ func (*SNIExtension).Len
-//@   property C08 C02
+//@   property C08 C02 C03
 //@   let h = snihost(e.ServerName)
 //@   requires e != nil
 //@   pure
@@ -21,7 +21,7 @@ package tls
 //@   ensures full: len(h) != 0 ==> ret == 9 + len(h)
 
 //@ func (*SNIExtension).Read
-//@   property C08 C02
+//@   property C08 C02 C03
 //@   let h = snihost(e.ServerName)
 //@   let n = len(h)
 //@   requires e != nil
